@@ -126,6 +126,22 @@ fn ledger_verdict(complete: bool) -> Vec<String> {
     })
 }
 
+/// zero-sized element type with a destructor: cannot carry an id, so drops are counted
+struct Token;
+thread_local! {
+    static TOKEN_DROPS: std::cell::Cell<u32> = const { std::cell::Cell::new(0) };
+}
+impl Drop for Token {
+    fn drop(&mut self) {
+        TOKEN_DROPS.with(|t| t.set(t.get() + 1));
+    }
+}
+impl Clone for Token {
+    fn clone(&self) -> Token {
+        Token
+    }
+}
+
 #[derive(Serialize, Deserialize, Debug, Clone, Hash, PartialEq)]
 enum COp {
     Next { keep: bool },
@@ -161,6 +177,9 @@ enum Case {
     FromFnByVal { n: usize, panic_at: usize },
     /// map!/from_fn!/map_!/from_fn_!/collect_const! value checks for element kind 0=u32 1=String 2=Tracked
     Values { n: usize, kind: u8 },
+    /// zero-sized Drop elements: take `front`/`back` from a consumer of n tokens (dropping what was taken),
+    /// `clones` clones, push `pushed` tokens into a builder, map_! the rest: every token dropped exactly once
+    Zst { n: usize, front: usize, back: usize, clones: usize, pushed: usize },
 }
 
 macro_rules! ensure {
@@ -471,6 +490,66 @@ fn values<const N: usize>(kind: u8) -> Result<bool, String> {
     }
 }
 
+fn zst_run<const N: usize>(front: usize, back: usize, clones: usize, pushed: usize) -> Result<bool, String> {
+    TOKEN_DROPS.with(|t| t.set(0));
+    let mut created = N as u32;
+    {
+        let mut c = ArrayConsumer::new(core::array::from_fn::<Token, N, _>(|_| Token));
+        let mut taken = 0usize;
+        for _ in 0..front {
+            if let Some(t) = c.next() {
+                drop(ManuallyDrop::into_inner(t));
+                taken += 1;
+            }
+        }
+        for _ in 0..back {
+            if let Some(t) = c.next_back() {
+                drop(ManuallyDrop::into_inner(t));
+                taken += 1;
+            }
+        }
+        ensure!(c.as_slice().len() == N - taken, "VAL: zst consumer as_slice().len() = {} expected {}", c.as_slice().len(), N - taken);
+        for _ in 0..clones {
+            let c2 = c.clone();
+            created += (N - taken) as u32;
+            drop(c2);
+        }
+        drop(c);
+    }
+    let d = TOKEN_DROPS.with(|t| t.get());
+    ensure!(d == created, "OWN: zero-sized Drop elements: {created} tokens were owned by consumers (N={N}, front {front}, back {back}, {clones} clones) but {d} destructor calls were observed");
+    // builder
+    TOKEN_DROPS.with(|t| t.set(0));
+    {
+        let mut b: ArrayBuilder<Token, N> = ArrayBuilder::new();
+        let k = pushed.min(N);
+        for _ in 0..k {
+            b.push(Token);
+        }
+        ensure!(b.len() == k, "VAL: zst builder len {} expected {k}", b.len());
+        if k == N {
+            let arr = b.build();
+            let mapped: [Token; N] = array::map_!(arr, |t: Token| t);
+            drop(mapped);
+        } else {
+            drop(b);
+        }
+        let d = TOKEN_DROPS.with(|t| t.get());
+        ensure!(d == k as u32, "OWN: zero-sized Drop elements: {k} tokens pushed into a builder (N={N}) but {d} destructor calls were observed");
+    }
+    // destructure! of arrays / tuples of tokens
+    TOKEN_DROPS.with(|t| t.set(0));
+    {
+        konst::destructure! {[a, _, rest @ .., z] = [Token, Token, Token, Token, Token]}
+        drop((a, rest, z));
+        konst::destructure! {(p, _, q) = (Token, Token, Token)}
+        drop((p, q));
+    }
+    let d = TOKEN_DROPS.with(|t| t.get());
+    ensure!(d == 8, "OWN: destructure! over zero-sized Drop elements: 8 tokens, {d} destructor calls");
+    Ok(true)
+}
+
 fn run_case(c: &Case) -> (Result<bool, String>, Vec<String>) {
     ledger_reset();
     let r = match c {
@@ -479,6 +558,7 @@ fn run_case(c: &Case) -> (Result<bool, String>, Vec<String>) {
         Case::MapByVal { n, panic_at } => with_n!(*n, map_by_val, *panic_at),
         Case::FromFnByVal { n, panic_at } => with_n!(*n, from_fn_by_val, *panic_at),
         Case::Values { n, kind } => with_n!(*n, values, *kind),
+        Case::Zst { n, front, back, clones, pushed } => with_n!(*n, zst_run, *front, *back, *clones, *pushed),
     };
     let complete = matches!(r, Ok(true));
     let l = ledger_verdict(complete);
@@ -530,6 +610,7 @@ fn eval(ctx: &mut Ctx, c11: bool, c: Case) {
                 *n >= 2 && (*panic_at > 0 || *panic_at >= *n)
             }
             Case::Values { n, kind } => *n >= 2 && *kind >= 1 || *n == 0,
+            Case::Zst { n, front, back, .. } => front + back < *n,
         };
         if nt {
             let cls = match &c {
@@ -538,6 +619,7 @@ fn eval(ctx: &mut Ctx, c11: bool, c: Case) {
                 Case::MapByVal { .. } => "map_",
                 Case::FromFnByVal { .. } => "from_fn_",
                 Case::Values { .. } => "values",
+                Case::Zst { .. } => "zst_drop",
             };
             ctx.nontrivial(cls, &c, || json!(c));
         }
@@ -563,6 +645,18 @@ fn explore(ctx: &mut Ctx, c11: bool, miri: bool) {
             eval(ctx, c11, Case::FromFnByVal { n, panic_at });
         }
     }
+    for n in 0..=maxn {
+        for front in 0..=(n + 1).min(3) {
+            for back in 0..=(n + 1).min(3) {
+                for clones in 0..2 {
+                    for pushed in [0, n / 2, n] {
+                        eval(ctx, c11, Case::Zst { n, front, back, clones, pushed });
+                    }
+                }
+            }
+        }
+    }
+    ctx.exhaustive_part("zero-sized Drop tokens: N in 0..=6 x front/back takes 0..=3 x clones x builder fill levels (+ destructure! of token arrays/tuples): destructor calls counted");
     ctx.exhaustive_part("N in 0..=6 x {u32,String,Tracked} value checks of map!/map_!/from_fn!/from_fn_! (all closure forms); map_!/from_fn_! with the closure panicking at every element");
     // all op sequences up to a depth
     let depth_c = if miri { 2 } else { ctx.by_tier(5, 6) };
